@@ -86,7 +86,7 @@ structure Relayer where
 
 /-- Calls made by the handlers into the packet contract (newest first). -/
 inductive Event
-  | recvCallback (key : Bytes)                          -- CallPacket("onRecvPacket", packet); key = receipt key
+  | recvCallback (key : Bytes)                          -- committed effects of CallPacket("onRecvPacket", packet); key = receipt key
   | setAckStatus (dst : Bytes) (seq : UInt64) (st : Nat) -- CallPacket("setAckStatus", dst, seq, 1|2)
   | feePaid (dst : Bytes) (seq : UInt64) (relayer : Bytes)
   | onAck (key : Bytes)                                 -- CallPacket("OnAcknowledgePacket", packet, ack); key = commitment key
@@ -260,6 +260,11 @@ inductive Msg
   | createClient (chain : Bytes) (cl : Client)           -- governance (abstract)
   | registerRelayer (r : Relayer)                        -- governance (abstract)
 
+/-- the callback's state changes are committed (`write()`): CallPacket succeeded with result code 0 -/
+def Callback.committed : Callback → Bool
+  | .ok code _ _ => code == 0
+  | _ => false
+
 inductive Result | ok | err
   deriving DecidableEq, Repr
 
@@ -324,11 +329,18 @@ def recvPacket (env : Env) (c : Chain) (now : UInt64) (packet proof : Bytes) (h 
       | .panic => .error "recv:panic"
       | .found relayer =>
         if p.dst == c1.name then
-          let c2 := { c1 with evm := .recvCallback (receiptKey p) :: c1.evm }
+          -- the callback runs on the cache context `cctx`; its effects (here: the `recvCallback` entry of the
+          -- contract log) are written back only if CallPacket returned no error and the result code is 0;
+          -- the acknowledgement is always written on `ctx`
           match cb with
-          | .fail => writeAck env c2 p (env.encodeAck ⟨1, [], errMsgCallback, relayer, p.feeOption⟩)
+          | .fail => writeAck env c1 p (env.encodeAck ⟨1, [], errMsgCallback, relayer, p.feeOption⟩)
           | .undecodable => .error "recv:result"
-          | .ok code result message => writeAck env c2 p (env.encodeAck ⟨code, result, message, relayer, p.feeOption⟩)
+          | .ok code result message =>
+            match writeAck env c1 p (env.encodeAck ⟨code, result, message, relayer, p.feeOption⟩) with
+            | .error e => .error e
+            | .ok c2 =>
+              if code != 0 then .ok c2
+              else .ok { c2 with evm := .recvCallback (receiptKey p) :: c2.evm }
         else if !c1.clients.has p.dst then
           writeAck env c1 p (env.encodeAck ⟨1, [], errMsgDst, relayer, p.feeOption⟩)
         else .ok c1
